@@ -783,7 +783,7 @@ theorem roundtrip_fuel (cfg : Cfg) (hiso : cfg.old3D = false) (g : G) (hwf : WFs
   simpa [writeToks] using this
 
 theorem roundtrip_readToks (cfg : Cfg) (hiso : cfg.old3D = false) (g : G) (hwf : WFs g = true)
-    (hdim : dimOK cfg g = true) (hf : gFuel g ≤ (writeToks cfg g).length + 2) :
+    (hdim : dimOK cfg g = true) (hf : gFuel g ≤ 3 * (writeToks cfg g).length + 4) :
     readToks (writeToks cfg g) = .ok (project cfg id g) := by
   unfold readToks
   rw [roundtrip_fuel cfg hiso g hwf hdim _ hf]
